@@ -227,7 +227,9 @@ fn cmd_run(a: &Args) {
 }
 
 fn engine_name() -> &'static str {
-    if cfg!(feature = "engine-std") {
+    if cfg!(feature = "engine-real") {
+        "E4-plonksim(std, real rayon)"
+    } else if cfg!(feature = "engine-std") {
         "E1-plonksim(std, sim-rayon)"
     } else {
         "E3-plonksim(alloc-only)"
